@@ -13,7 +13,7 @@ import (
 
 func init() {
 	register("C03", runC03, propMeta{
-		Explanation: "Decides effect confinement and the conversion tables behind faithful access to injected data, for all programs: (I1) in DataContext every read, write or call through the local store is reachable only over the miss edge of a lookup of the same key in the injected table, so an injected name always wins; (I2) reflect mutators (Set, SetInt, SetUint, SetFloat, SetString, SetBool, SetComplex, SetMapIndex) occur only in core.SetAttributeValue, core.SetSingleValue and DataContext.SetMapVarValue, which are reachable only from Assignment.Evaluate and the key binding of ForRangeStmt; reflect Call occurs only in ExecFunc and InvokeFunction; the injected table is written only by Add/PluginLoader/Del — hence reads, comparisons and calls leave injected data untouched; (I3) conversion tables, row by row: ParamsTypeChange converts parameter i against In(i) of the same index, for each of the 12 numeric kinds to exactly that kind, reading the argument with the accessor of its own class tag (36 rows); getNumType maps prefix to tag; GetWantedValue converts to the target kind with the accessor of the target's class (12 rows); SetAttributeValue and SetSingleValue use the setter of the target's kind group, read the source with the accessor of the source's class, and store a signed or float source into an unsigned target only under a `>= 0` test; (I4) Args.Evaluate stores the i-th evaluated argument at index i and GetRawTypeValue returns element 0; (I5) every MapIndex result returned by MapVar.Evaluate is guarded by IsValid() with reflect.Zero of the element type on the other edge. ParamsTypeChange converts every declared parameter: its loop counts from 0 to NumIn() of the same function type. (I8) the field read by GetStructAttributeValue and set by SetAttributeValue is FieldByName(the given name) of the given object, or FieldByIndex with a path found for that name on the object's own reflect.Type (tables keyed by the Type accepted, by a printed name not). Not decided: reflect's own semantics, whether a particular value is representable, user functions. A call node yields the injected call's result: every return of FunctionCall / MethodCall / ThreeLevelCall.Evaluate hands on the first result of DataContext.ExecFunc / ExecMethod / ExecThreeLevel unchanged, so the name is looked up in the injected table on every call. What Assignment.Evaluate hands to SetMapVarValue / SetValue are the name and key fields of its own node, and a compound form reads the current value through that same node (target as compiled). In the three call nodes the only way to a return that avoids the Exec* call is the failure of the argument evaluation (call-always-made). The vector Args.Evaluate hands on is made in that call (make, a literal, or appends to one): ParamsTypeChange converts it in place, so a vector kept on the node would carry one callee's conversions into the next call. After the host function was called every way to a return goes through GetRawTypeValue of its results: the call yields the first result whatever the others are.",
+		Explanation: "Decides effect confinement and the conversion tables behind faithful access to injected data, for all programs: (I1) in DataContext every read, write or call through the local store is reachable only over the miss edge of a lookup of the same key in the injected table, so an injected name always wins; (I2) reflect mutators (Set, SetInt, SetUint, SetFloat, SetString, SetBool, SetComplex, SetMapIndex) occur only in core.SetAttributeValue, core.SetSingleValue and DataContext.SetMapVarValue, which are reachable only from Assignment.Evaluate and the key binding of ForRangeStmt; reflect Call occurs only in ExecFunc and InvokeFunction; the injected table is written only by Add/PluginLoader/Del — hence reads, comparisons and calls leave injected data untouched; (I3) conversion tables, row by row: ParamsTypeChange converts parameter i against In(i) of the same index, for each of the 12 numeric kinds to exactly that kind, reading the argument with the accessor of its own class tag (36 rows); getNumType maps prefix to tag; GetWantedValue converts to the target kind with the accessor of the target's class (12 rows); SetAttributeValue and SetSingleValue use the setter of the target's kind group, read the source with the accessor of the source's class, and store a signed or float source into an unsigned target only under a `>= 0` test; (I4) Args.Evaluate stores the i-th evaluated argument at index i and GetRawTypeValue returns element 0; (I5) every MapIndex result returned by MapVar.Evaluate is guarded by IsValid() with reflect.Zero of the element type on the other edge. ParamsTypeChange converts every declared parameter: its loop counts from 0 to NumIn() of the same function type. (I8) the field read by GetStructAttributeValue and set by SetAttributeValue is FieldByName(the given name) of the given object, or FieldByIndex with a path found for that name on the object's own reflect.Type (tables keyed by the Type accepted, by a printed name not). Not decided: reflect's own semantics, whether a particular value is representable, user functions. A call node yields the injected call's result: every return of FunctionCall / MethodCall / ThreeLevelCall.Evaluate hands on the first result of DataContext.ExecFunc / ExecMethod / ExecThreeLevel unchanged, so the name is looked up in the injected table on every call. What Assignment.Evaluate hands to SetMapVarValue / SetValue are the name and key fields of its own node, and a compound form reads the current value through that same node (target as compiled). In the three call nodes the only way to a return that avoids the Exec* call is the failure of the argument evaluation (call-always-made). The vector Args.Evaluate hands on is made in that call (make, a literal, or appends to one): ParamsTypeChange converts it in place, so a vector kept on the node would carry one callee's conversions into the next call. After the host function was called every way to a return goes through GetRawTypeValue of its results: the call yields the first result whatever the others are. GetWantedValue converts a number and never refuses it for its size: no error of its own under a comparison of the value's Int / Uint / Float.",
 		Assumptions: []string{"reflect accessors/setters behave as documented"},
 		Trusted:     commonTrusted,
 	})
@@ -847,6 +847,45 @@ func (c *Ctx) ruleI3(kinds map[int64]string) {
 			c.Check("I3-GetWantedValue", key, ok2, pos, "target kind %s: %s", kname, orStr(why, "converted to that kind with the accessor of its class"))
 		}
 		c.Check("I3-GetWantedValue", "rows", missing == "", f.Pos(), "%d numeric target kinds have a row; without one:%s", rows, orStr(missing, " none"))
+		// a number is converted, never refused for its size: no return of an error of the function's own
+		// stands under a comparison of the value's own number (Int / Uint / Float of the first parameter)
+		refused, refPos := "", f.Pos()
+		eachInstr(f, func(in ssa.Instruction) {
+			r, isR := in.(*ssa.Return)
+			if !isR || len(r.Results) != 2 || refused != "" {
+				return
+			}
+			own := false
+			for _, pv := range x.ValuesAt(r.Results[1], r) {
+				if pv.V != nil && isNewError(pv.V) {
+					own = true
+				}
+			}
+			if !own {
+				return
+			}
+			isNumberOf := func(v ssa.Value) bool {
+				call, isCall := x.Origin(v).(*ssa.Call)
+				if !isCall {
+					return false
+				}
+				nm, cc := reflectMethod(call)
+				return cc != nil && (nm == "Int" || nm == "Uint" || nm == "Float") && x.Origin(cc.Args[0]) == ssa.Value(f.Params[0])
+			}
+			for _, g := range x.GuardsOf(r.Block()) {
+				bo, isBo := g.Cond.(*ssa.BinOp)
+				if !isBo {
+					continue
+				}
+				switch bo.Op {
+				case token.LSS, token.LEQ, token.GTR, token.GEQ:
+					if isNumberOf(bo.X) || isNumberOf(bo.Y) {
+						refused, refPos = x.Describe(g.Cond), r.Pos()
+					}
+				}
+			}
+		})
+		c.Check("I3-GetWantedValue", "never-refused-for-its-size", refused == "", refPos, "GetWantedValue returns an error of its own under the comparison %s of the value's number: a number is converted to the target's width, not refused", refused)
 	}
 	// setters
 	setterGroup := map[string]string{"SetInt": "int", "SetUint": "uint", "SetFloat": "float", "SetString": "string", "SetBool": "bool"}
